@@ -121,7 +121,7 @@ func checkC11(c *Ctx) {
 	c.BoundsText = append(c.BoundsText, "token writer (GenToken), lexer writers (genLexer, genTransitionTable, genActionTable; with and without -debug_lexer) and parser table writers (GenActionTable, GenGotoTable, GenParser, GenProductionsTable; plain and -zip) on a small grammar: template and gob/gzip-encoder input recorded in natural map order and with one execution of a range-over-map statement in another order (every choice on its own path) must be deeply equal")
 	c.BoundsText = append(c.BoundsText, "kernel level only: 2-safety harnesses over functions that iterate maps on the generation path, with every map iteration order symbolic (a fresh permutation index per range statement, <= 4 entries); the run also lists from SSA every range over a map in gocc's packages and which of them a harness executed (evidence keys map_range_sites_*), and every go statement (none = no scheduling nondeterminism)",
 		"outside the claim: byte identity of whole runs; map ranges listed as not vetted (several only feed debug/verbose output); hash-seed effects other than iteration order")
-	c.Assumptions = append(c.Assumptions, "Go's map iteration nondeterminism = an arbitrary permutation of the entries per range statement")
+	c.Assumptions = append(c.Assumptions, "Go's map iteration nondeterminism = an arbitrary permutation of the entries per range statement", "writer jobs: ONE permuted range execution per path (all orders up to 4 entries, 5 orders above); text/template, go/format, gob/gzip and file output are stubs whose INPUT is compared; fmt text is computed concretely")
 }
 
 // c11WriterJobs: the parser table writers under "one map range in another order".
